@@ -60,7 +60,7 @@ struct Fam {
 	params: &'static [P],
 }
 
-const FREQ_L: &[&str] = &["0Hz(<=clamp 1e-4*sr)", "20Hz", "1kHz", "sr/2(>=nyquist)", "2*sr(>=nyquist)"];
+const FREQ_L: &[&str] = &["0Hz(<=clamp 1e-4*sr)", "20Hz", "1kHz", "sr/2(>=nyquist)", "2*sr(>=nyquist)", "0.75*sr(>=nyquist)"];
 const MIX_L: &[&str] = &["-0.5(<0)", "0(dry)", "0.5", "1(wet)", "1.5(>1)"];
 
 static FAMS: [Fam; 8] = [
@@ -165,7 +165,7 @@ fn decode_cfg(mut c: u64) -> (usize, Vec<usize>) {
 }
 
 fn freq(i: usize, sr: u32) -> f64 {
-	[0.0, 20.0, 1000.0, sr as f64 * 0.5, sr as f64 * 2.0][i]
+	[0.0, 20.0, 1000.0, sr as f64 * 0.5, sr as f64 * 2.0, sr as f64 * 0.75][i]
 }
 const MIX5: [f32; 5] = [-0.5, 0.0, 0.5, 1.0, 1.5];
 const DELAY_US: [u64; 3] = [100, 2500, 30000];
@@ -334,6 +334,11 @@ impl Drv {
 	fn new(f: usize, ix: &[usize], sr: u32) -> Self {
 		Drv { fx: build(f, ix, sr), dt: 1.0 / sr as f64, info: MockInfoBuilder::new().build() }
 	}
+	/// the device sample rate changes under the effect
+	fn retune(&mut self, sr: u32) {
+		self.fx.on_change_sample_rate(sr);
+		self.dt = 1.0 / sr as f64;
+	}
 	fn call(&mut self, buf: &mut [Frame]) {
 		self.fx.on_start_processing();
 		self.fx.process(buf, self.dt, &self.info);
@@ -457,6 +462,34 @@ fn law_long_run(tier: Tier, f: usize, ix: &[usize], sr: u32, sigs: &[usize], ev:
 					cfg_desc(f, ix, sr), SIG_DESC[s], n, IBS, i, y[i], x[i]
 				)
 			});
+		}
+		// the device rate changes under the effect (to every other rate of the tier, up and down): still finite, and
+		// still independent of how the input is split into process calls
+		if s == sigs[0] || s == sigs[sigs.len() - 1] {
+			for &sr2 in srs(tier) {
+				if sr2 == sr {
+					continue;
+				}
+				let mut a = Drv::new(f, ix, sr);
+				let mut b = Drv::new(f, ix, sr);
+				let mut warm = gen(s, 96);
+				let mut warm2 = warm.clone();
+				a.feed(&mut warm, IBS);
+				b.feed(&mut warm2, IBS);
+				a.retune(sr2);
+				b.retune(sr2);
+				let x2 = gen(s, 512);
+				let (mut ya, mut yb) = (x2.clone(), x2.clone());
+				a.feed(&mut ya, IBS);
+				b.feed(&mut yb, 7);
+				ev.run(&ya);
+				ev.run(&yb);
+				if let Some(i) = ya.iter().position(|v| !finite(*v)) {
+					push(&mut fails, S_FINITE, || format!("{}; after on_change_sample_rate({}); input {}; output frame {} = {:?}", cfg_desc(f, ix, sr), sr2, SIG_DESC[s], i, ya[i]));
+				} else if let Some(i) = (0..512).find(|&i| finite(yb[i]) && ((ya[i].left - yb[i].left).abs() > 1e-6 * (1.0 + ya[i].left.abs()) || (ya[i].right - yb[i].right).abs() > 1e-6 * (1.0 + ya[i].right.abs()))) {
+					push(&mut fails, S_PART, || format!("{}; after on_change_sample_rate({}); input {}; frame {}: calls of {} give {:?}, calls of 7 give {:?}", cfg_desc(f, ix, sr), sr2, SIG_DESC[s], i, IBS, ya[i], yb[i]));
+				}
+			}
 		}
 		if let Some(clause) = ident {
 			// non-finite frames are the finite law's business
@@ -785,7 +818,7 @@ impl Check for C13 {
 	}
 	fn rule(&self) -> String {
 		format!(
-			"full product lattice of every built-in effect ({} points: filter 4 modes x 5 cutoffs x 4 resonances x 5 mixes; EQ 3 kinds x 5 frequencies x 4 gains x 4 q; delay 3 times x 3 feedbacks x 5 mixes x {{plain, band-pass filter in the feedback loop, delay in the feedback loop}}; reverb 3 feedbacks x 3 dampings x 3 widths x 5 mixes; compressor 3 thresholds x 3 ratios x 3 attacks x 3 releases x 2 make-up gains x 2 mixes; distortion 2 kinds x 5 drives x 5 mixes; volume 5; panning 7; the values are the documented edges, one interior value and one value beyond every internal clamp) x sample rates (quick {{8000,44100,48000,192000}}, thorough + {{22050,96000}}) = one case each; per case: 7 input signals (impulse, step, DC, full-scale alternating, ramp, 1e-40 denormal, 64-entry noise table; left != right) x long run in 128-frame calls (quick 2^12, thorough 2^16 frames: finite + identity clauses), zero input into a fresh effect, superposition/scaling over signal pairs x coefficient pairs for the linear effects (quick: ring of 6 pairs x 2 coefficient pairs, thorough: all 15 pairs x 3; plus pure scaling of every signal by 2^-12 and 2^-20, tolerance relative to the scaled peak), all 128 compositions of 8 frames on a fresh effect and of 128 consecutive 8-frame blocks inside a warm stream, 6 partitions of 256-frame blocks. An evaluation = one complete run of one effect instance over one input; it is non-trivial when its output contains a non-zero sample",
+			"full product lattice of every built-in effect ({} points: filter 4 modes x 6 cutoffs x 4 resonances x 5 mixes; EQ 3 kinds x 6 frequencies x 4 gains x 4 q; delay 3 times x 3 feedbacks x 5 mixes x {{plain, band-pass filter in the feedback loop, delay in the feedback loop}}; reverb 3 feedbacks x 3 dampings x 3 widths x 5 mixes; compressor 3 thresholds x 3 ratios x 3 attacks x 3 releases x 2 make-up gains x 2 mixes; distortion 2 kinds x 5 drives x 5 mixes; volume 5; panning 7; the values are the documented edges, one interior value and one value beyond every internal clamp) x sample rates (quick {{8000,44100,48000,192000}}, thorough + {{22050,96000}}) = one case each; per case: 7 input signals (impulse, step, DC, full-scale alternating, ramp, 1e-40 denormal, 64-entry noise table; left != right) x long run in 128-frame calls (quick 2^12, thorough 2^16 frames: finite + identity clauses), zero input into a fresh effect, superposition/scaling over signal pairs x coefficient pairs for the linear effects (quick: ring of 6 pairs x 2 coefficient pairs, thorough: all 15 pairs x 3; plus pure scaling of every signal by 2^-12 and 2^-20, tolerance relative to the scaled peak), all 128 compositions of 8 frames on a fresh effect and of 128 consecutive 8-frame blocks inside a warm stream, 6 partitions of 256-frame blocks. An evaluation = one complete run of one effect instance over one input; it is non-trivial when its output contains a non-zero sample",
 			num_cfgs()
 		)
 	}
